@@ -151,7 +151,7 @@ static void grid_cfg(long idx, unsigned seed, hcfg *c)
    c->fs = FS[idx % 5];
    c->ch = chcfg == 0 ? 1 : 2;
    c->chmode = chcfg == 3 ? 1 : (chcfg == 1 ? 2 : 0);
-   if (chcfg == 2) c->bitrate = vrange(&r, 8000, 16000);
+   if (chcfg == 2) c->bitrate = vrange(&r, c->fr25 == 1 ? 10000 : 8000, 16000);   /* 2.5 ms: stay above the low-budget floor 9600 */
    else if (chcfg == 1) c->bitrate = vrange(&r, 48000, 96000);
    else c->bitrate = vrange(&r, 12000, 64000);
    c->app = APP[vbelow(&r, 100) < 60 ? 0 : (vbelow(&r, 100) < 75 ? 1 : 2)];
